@@ -13,12 +13,12 @@ from fontTools.ttLib import TTFont, TTLibError
 shim_all(SF, SS, TF, DT)
 
 
-def new_file():
+def new_file(data=None):
     if symbolic():
         from sx.shims import SFile
-        return SFile()
+        return SFile(data) if data is not None else SFile()
     from io import BytesIO
-    return BytesIO()
+    return BytesIO(bytes(data)) if data is not None else BytesIO()
 
 
 def u16(d, o):
@@ -507,3 +507,181 @@ def hhea_maxp_recalc(pat):
     bit1 = (head.flags & 2) != 0 if not isinstance(head.flags, int) else bool(head.flags & 2)
     ob('head.flags-bit1-iff-all-lsb-equal-xMin', eq(bit1, all_lsb) if symbolic() else bool(bit1) == bool(all_lsb))
     ob('head.flags-other-bits-kept', eq(head.flags & ~2, flags0 & ~2))
+
+
+# ------------------------------------------------------------------------------------------------ WOFF2 glyf transform: triplet encoding
+import fontTools.ttLib.woff2 as W2
+shim_all(W2)
+
+
+def spec_triplet(flag, data):
+    """WOFF2 spec section 5.2 'Triplet Encoding': returns (dx, dy, nbytes, onCurve bit) for a flag byte and the following data bytes.
+    Works on symbolic flag / data bytes: only the size CLASS of the flag is decided (a fork the encoder's path has already fixed)."""
+    on = ite(eq(flag >> 7, 0), 1, 0)
+    i = flag & 0x7F
+
+    def sgn(bit, v):
+        return ite(eq(bit, 0), -v, v)
+    if bool(lt(i, 10)):
+        return 0, sgn(i & 1, ((i >> 1) << 8) + data[0]), 1, on
+    if bool(lt(i, 20)):
+        j = i - 10
+        return sgn(j & 1, ((j >> 1) << 8) + data[0]), 0, 1, on
+    if bool(lt(i, 84)):
+        j = i - 20
+        a, b, s = j // 16, (j % 16) // 4, j % 4
+        return sgn(s & 1, 1 + 16 * a + (data[0] >> 4)), sgn(s & 2, 1 + 16 * b + (data[0] & 15)), 1, on
+    if bool(lt(i, 120)):
+        j = i - 84
+        a, b, s = j // 12, (j % 12) // 4, j % 4
+        return sgn(s & 1, 1 + 256 * a + data[0]), sgn(s & 2, 1 + 256 * b + data[1]), 2, on
+    if bool(lt(i, 124)):
+        s = i - 120
+        return sgn(s & 1, (data[0] << 4) + (data[1] >> 4)), sgn(s & 2, ((data[1] & 15) << 8) + data[2]), 3, on
+    s = i - 124
+    return sgn(s & 1, (data[0] << 8) + data[1]), sgn(s & 2, (data[2] << 8) + data[3]), 4, on
+
+
+@kernel('C04', funcs=['ttLib/woff2.py:WOFF2GlyfTable._encodeTriplets', 'ttLib/woff2.py:WOFF2GlyfTable._decodeTriplets'],
+        bounds='the WOFF2 glyf-transform point encoding for n in 1..2 points: every coordinate delta (dx, dy) over int16 x int16 and the on-curve bit symbolic '
+               '(all six size classes and their boundaries 1280 / 65 / 769 / 4096 are solver forks): the flag + data bytes decode, by a decoder written '
+               'from the WOFF2 spec table, to the same deltas; fontTools\' own decoder returns the same points',
+        shims=['array', 'bytes'], quick=[dict(n=1)], thorough=[dict(n=1), dict(n=2)], max_paths=100000)
+def woff2_triplets_roundtrip(n):
+    import types
+    pts, flags = [], []
+    x = y = 0
+    deltas = []
+    for i in range(n):
+        dx = V.int('dx%d' % i, -32768, 32767)
+        dy = V.int('dy%d' % i, -32768, 32767)
+        on = V.int('on%d' % i, 0, 1)
+        x, y = x + dx, y + dy
+        assume(conj([le(-32768, x), le(x, 32767), le(-32768, y), le(y, 32767)]))
+        pts.append((x, y))
+        flags.append(on)
+        deltas.append((dx, dy, on))
+    g = GL.Glyph()
+    g.numberOfContours = 1
+    g.coordinates = GL.GlyphCoordinates(pts)
+    g.flags = GL.array.array('B', flags)
+    g.endPtsOfContours = [n - 1]
+    enc = types.SimpleNamespace(flagStream=b'', glyphStream=b'')
+    W2.WOFF2GlyfTable._encodeTriplets(enc, g)
+    fs, gs = tobytes(enc.flagStream), tobytes(enc.glyphStream)
+    observe('streams', [fs, gs])
+    ob('one-flag-per-point', len(fs) == n)
+    fl, data = _blist(fs), _blist(gs)
+    pos = 0
+    conds = []
+    for i in range(n):
+        ddx, ddy, nb, on = spec_triplet(fl[i], data[pos:pos + 4] + [0, 0, 0, 0])
+        pos += nb
+        conds.append(conj([eq(ddx, deltas[i][0]), eq(ddy, deltas[i][1]), eq(on, deltas[i][2])]))
+    ob('spec-decoder-recovers-deltas', conj(conds))
+    ob('all-data-bytes-used', pos == len(data))
+    dec = types.SimpleNamespace(flagStream=enc.flagStream, glyphStream=enc.glyphStream)
+    g2 = GL.Glyph()
+    g2.endPtsOfContours = [n - 1]
+    W2.WOFF2GlyfTable._decodeTriplets(dec, g2)
+    ob('decoder-recovers-points', conj([conj([eq(g2.coordinates[i][0], pts[i][0]), eq(g2.coordinates[i][1], pts[i][1]), eq(g2.flags[i], flags[i])]) for i in range(n)]))
+
+
+# ------------------------------------------------------------------------------------------------ TrueType collections with shared tables
+import fontTools.ttLib.ttCollection as TCO
+shim_all(TCO)
+
+
+@kernel('C04', funcs=['ttLib/ttCollection.py:TTCollection.save', 'ttLib/ttFont.py:TTFont._save', 'ttLib/ttFont.py:TTFont._writeTable', 'ttLib/sfnt.py:writeTTCHeader',
+                      'ttLib/sfnt.py:SFNTReader.__init__', 'ttLib/sfnt.py:readTTCHeader'],
+        bounds='collection of 2 fonts, each with 2 raw tables of the same tags and equal lengths (4 / 8 bytes) and ALL bytes symbolic (so the two fonts\' tables '
+               'may be equal, may differ, may differ with equal checksums): saved with shareTables in {True, False} and re-read member by member with the '
+               'real reader, every font gets back exactly its own table bytes; the TTC header counts and offsets are consistent',
+        shims=['SFile', 'struct', 'table cache keyed by bytes: collide mode'], quick=[dict(share=True), dict(share=False)], collide=True, max_paths=100000)
+def ttc_members_keep_their_tables(share):
+    fonts, want = [], []
+    for i in range(2):
+        f = TTFont(recalcTimestamp=False, recalcBBoxes=False)
+        w = {}
+        for tag, n in (('aaaa', 4), ('zzzz', 8)):
+            t = DT.DefaultTable(tag)
+            t.data = V.bytes('f%d_%s' % (i, tag), n)
+            f[tag] = t
+            w[tag] = t.data
+        fonts.append(f)
+        want.append(w)
+    coll = TCO.TTCollection()
+    coll.fonts = fonts
+    if symbolic():
+        from sx import shims as _sh
+        TCO.BytesIO = _sh.BytesIO_shim
+    out = new_file()
+    coll.save(out, shareTables=share)
+    blob = out.getvalue()
+    observe('length', len(tobytes(blob)))
+    d = _blist(blob)
+    ob('ttc-header', bytes(int(x) for x in d[0:4]) == b'ttcf' and bool(eq(u32(d, 8), 2)))
+    conds = []
+    for i in range(2):
+        r = SF.SFNTReader(new_file(blob), fontNumber=i)
+        for tag in ('aaaa', 'zzzz'):
+            got = tobytes(r[tag])
+            conds.append(eq(got, tobytes(want[i][tag])) if len(got) == len(tobytes(want[i][tag])) else False)
+    ob('every-member-reads-its-own-tables', conj(conds))
+
+
+# ------------------------------------------------------------------------------------------------ tables whose header depends on another table's compile
+import fontTools.ttLib.tables._v_h_e_a as VH
+import fontTools.ttLib.tables._h_m_t_x as HMX
+import fontTools.ttLib.tables._v_m_t_x as VMX
+shim_all(VH, HMX, VMX)
+
+
+def _metrics_header(tag, count_name):
+    t = newTable_(tag)
+    fields = {'hhea': ['ascent', 'descent', 'lineGap', 'advanceWidthMax', 'minLeftSideBearing', 'minRightSideBearing', 'xMaxExtent', 'caretSlopeRise', 'caretSlopeRun', 'caretOffset',
+                       'reserved0', 'reserved1', 'reserved2', 'reserved3', 'metricDataFormat'],
+              'vhea': ['ascent', 'descent', 'lineGap', 'advanceHeightMax', 'minTopSideBearing', 'minBottomSideBearing', 'yMaxExtent', 'caretSlopeRise', 'caretSlopeRun', 'caretOffset',
+                       'reserved1', 'reserved2', 'reserved3', 'reserved4', 'metricDataFormat']}[tag]
+    t.tableVersion = 0x00010000
+    for f in fields:
+        setattr(t, f, 0)
+    return t
+
+
+def newTable_(tag):
+    from fontTools.ttLib import newTable
+    return newTable(tag)
+
+
+@kernel('C04', funcs=['ttLib/ttFont.py:TTFont._writeTable', 'ttLib/ttFont.py:TTFont._save', 'ttLib/tables/_h_m_t_x.py:table__h_m_t_x.compile', 'ttLib/tables/_h_h_e_a.py:table__h_h_e_a.compile',
+                      'ttLib/tables/_v_h_e_a.py:table__v_h_e_a.compile'],
+        bounds='font of n in 2..4 glyphs with hhea + hmtx and vhea + vmtx table OBJECTS (advances and bearings symbolic, so the trimming of trailing equal '
+               'advances is a solver fork) whose header count starts at the untrimmed value n: in the SAVED file, numberOfHMetrics / numberOfVMetrics read '
+               'from the hhea / vhea bytes describe the hmtx / vmtx bytes (4*k + 2*(n-k) == length) - i.e. the metrics table is compiled before its header',
+        shims=['SFile', 'struct', 'sstruct', 'array'], quick=[dict(n=2), dict(n=3)], thorough=[dict(n=2), dict(n=3), dict(n=4)])
+def metrics_headers_match_saved_tables(n):
+    names = ['g%d' % i for i in range(n)]
+    font = TTFont(recalcTimestamp=False, recalcBBoxes=False)
+    font.setGlyphOrder(names)
+    maxp = newTable_('maxp')
+    maxp.tableVersion, maxp.numGlyphs = 0x00005000, n
+    font['maxp'] = maxp
+    for htag, mtag, cname in (('hhea', 'hmtx', 'numberOfHMetrics'), ('vhea', 'vmtx', 'numberOfVMetrics')):
+        h = _metrics_header(htag, cname)
+        setattr(h, cname, n)
+        m = newTable_(mtag)
+        m.metrics = {g: (V.int('%s_adv%d' % (mtag, i), 0, 0xFFFF), V.int('%s_sb%d' % (mtag, i), -0x8000, 0x7FFF)) for i, g in enumerate(names)}
+        font[htag], font[mtag] = h, m
+    if symbolic():
+        from sx import shims as _sh
+        TF.BytesIO = _sh.BytesIO_shim
+    out = new_file()
+    font.save(out, reorderTables=None)
+    r = SF.SFNTReader(new_file(out.getvalue()))
+    for htag, mtag in (('hhea', 'hmtx'), ('vhea', 'vmtx')):
+        hb, mb = _blist(r[htag]), _blist(r[mtag])
+        k = u16(hb, 34)
+        observe(htag + '.count', k)
+        ob(htag + ':count-in-range', conj([le(1, k), le(k, n)]))
+        ob(mtag + ':length-matches-header-count', eq(4 * k + 2 * (n - k), len(mb)))
